@@ -283,3 +283,53 @@ func c02EncodeFailure(x *X) {
 func init() {
 	register(&Scenario{Prop: "C02", Name: "c02/encode-failure-among-calls", Quick: []Bound{{1, 0}, {2, 0}}, Thorough: []Bound{{3, 0}}, Body: c02EncodeFailure, BudgetQ: 20})
 }
+
+// through a Transport: the pooled connection has been parked in the idle queue (unused past
+// KeepAlive) and the server has closed it meanwhile (it restarted); the next asynchronous call
+// for that host is signalled on its Done channel exactly once, whatever the Transport does
+// about the stale connection.
+func c02Parked(x *X) {
+	form := []int{formGo, formRoundTrip}[x.Choose(2)]
+	restart := x.Choose(2) == 1 // the server is reachable again / stays down
+	t := newTrSys(x, "C02", 1, 1)
+	t.call("a", formCall)
+	t.advance(tKeepAlive+tTick, ">keepalive")
+	t.kill("a")
+	if restart {
+		t.restart("a")
+	}
+	c := newUcall(0x51, 0, 22, form)
+	done := make(chan *rpc.Call, 8)
+	var call *rpc.Call
+	if form == formGo {
+		call = t.tr.Go("a", c.method, &c.args, &c.reply, done)
+	} else {
+		call = t.tr.RoundTrip("a", &rpc.Call{ServiceMethod: c.method, Args: &c.args, Reply: &c.reply, Done: done})
+	}
+	vs.Quiesce()
+	n := len(done)
+	first := "none"
+	if n > 0 {
+		f := <-done
+		first = errStr(f.Error)
+		if f != call {
+			x.Fail("C02/foreign-call-signalled/transport-parked", "the Done channel received a Call that is not the one returned")
+		}
+	}
+	switch {
+	case n == 0:
+		x.Fail("C02/never-completed/transport-parked", "%s on a host whose parked connection the server had closed was never signalled", formNames[form])
+	case n > 1:
+		x.Fail(fmt.Sprintf("C02/completions=%d/transport-parked", n), "%s on a host whose parked connection the server had closed was signalled %d times on its Done channel (Error at the first signal: %s, now: %s)", formNames[form], n, first, errStr(call.Error))
+	case first != errStr(call.Error):
+		x.Fail("C02/error-changed-after-signal/transport-parked", "Error was %s when signalled and is %s now", first, errStr(call.Error))
+	case call.Error == nil && !eqBytes(c.reply, c.want()):
+		x.Fail("C02/success-without-own-reply/transport-parked", "completed without error, reply %x", c.reply)
+	}
+	x.Outcome("form=%d restart=%v n=%d err=%s", form, restart, n, errStr(call.Error))
+	t.shutdown()
+}
+
+func init() {
+	register(&Scenario{Prop: "C02", Name: "c02/transport-parked-connection", Quick: []Bound{{0, 0}, {1, 0}}, Thorough: []Bound{{2, 0}}, Body: c02Parked, MaxSteps: 200000, BudgetQ: 15})
+}
